@@ -185,3 +185,42 @@ pub fn bcf_read_lazy(bytes: &[u8], max: usize) -> Result<(vcf::Header, Vec<bcf::
         Ok((h, out))
     })
 }
+
+/// Records of a raw BCF stream whose header block is known (`skip` bytes) and already parsed.
+pub fn bcf_read_records(h: &vcf::Header, bytes: &[u8], skip: usize, max: usize) -> Result<Vec<RecordBuf>, Fail> {
+    guard(|| {
+        let mut r = bcf::io::Reader::from(&bytes[skip..]);
+        let mut out = Vec::new();
+        loop {
+            let mut rb = RecordBuf::default();
+            let n = r.read_record_buf(h, &mut rb).map_err(|e| format!("read_record_buf: {}", ioe(e)))?;
+            if n == 0 {
+                break;
+            }
+            out.push(rb);
+            if out.len() > max {
+                return Err("more records than written".into());
+            }
+        }
+        Ok(out)
+    })
+}
+
+pub fn bcf_read_lazy_records(bytes: &[u8], skip: usize, max: usize) -> Result<Vec<bcf::Record>, Fail> {
+    guard(|| {
+        let mut r = bcf::io::Reader::from(&bytes[skip..]);
+        let mut out = Vec::new();
+        loop {
+            let mut rec = bcf::Record::default();
+            let n = r.read_record(&mut rec).map_err(|e| format!("read_record: {}", ioe(e)))?;
+            if n == 0 {
+                break;
+            }
+            out.push(rec);
+            if out.len() > max {
+                return Err("more records than written".into());
+            }
+        }
+        Ok(out)
+    })
+}
